@@ -73,7 +73,10 @@ impl GenericSocketBackend {
                     Ok(next_peer_id)
                 }
                 Err(e) => {
-                    self.peer_disconnected(&next_peer_id).await;
+                    // Only sending to this peer has failed. What it sent before it went away
+                    // may still be unread, so its read half stays in the fair queue until it
+                    // reports its own end; the peer just cannot be sent to any more.
+                    self.peers.remove_async(&next_peer_id).await;
                     Err(e.into())
                 }
             };
